@@ -1,7 +1,20 @@
+"""C07 - leaf conflict resolution is an exact three-way merge or a refusal."""
 from props import _generic as g
 
 
 def run(ctx):
     fns = g.run_pyvc(ctx, "C07")
     ctx.standin("merge_rt", families=tuple("OO,II,LF,fs".split(",")))
-    return "exploration", "bounded stand-in merge_rt (no obligation of the deductive engines serves C07 yet)"
+    return "proof", (
+        "Engine P: Set._p_resolveConflict and Bucket._p_resolveConflict of _base.py are proved from their real bodies (all six "
+        "loops, the closures merge_output / merge_error inlined, state decoding and encoding through the proved "
+        "__setstate__/__getstate__ contracts, result[k] = v through the proved whole-view contract of Bucket.__setitem__) against "
+        "the oracle of the statement: on a normal return the returned state holds, in key order, exactly merged(k) = C's entry if "
+        "C changed k else N's entry (values included), no key was changed by both sides, neither side removed what was then its "
+        "smallest key, links equal, sides and merge non-empty, O's link; at every raise site the refusal is justified (reason 0: a "
+        "link differs; 12: a side is empty; 13: first-key rule; 10: empty merge; every other reason: some key is in conflict) - so "
+        "the merge is returned exactly when the statement says, and only BTreesConflictError is raised. One frontier invariant "
+        "(every consumed key of every cursor is below every current key; below the frontier the result is the merge and no key "
+        "conflicts) serves all loops; loop heads carry vacuity guards. _get_simple_btree_bucket_state: one-leaf tree states unwrap, "
+        "multi-leaf states are refused with reason 11. %d targets. The C implementation (bucket_merge) and the agreement of reason "
+        "codes between the implementations are the bounded exhaustive stand-in merge_rt." % len(fns))
